@@ -57,6 +57,19 @@ def dedupRows (key : Seq → Seq) : List (String × Seq) → List (Seq × String
       dedupRows key t (acc.map fun g => if g.1 == key r.2 then (g.1, g.2.1, g.2.2.1, g.2.2.2 ++ [r.1]) else g)
     else dedupRows key t (acc ++ [(key r.2, r.1, r.2, [r.1])])
 
+/-- `ReverseComplementSequences` by its meaning: the names are taken in the order given; a name designates the first
+row carrying it (a name no row carries designates nothing); the designated row has every residue replaced by its IUPAC
+complement and the order of its residues reversed (a name given twice: twice).  `none`: a designated row holds a
+residue without a complement. -/
+def revcompNamedRef : List String → List (String × Seq) → Option (List (String × Seq))
+  | [], rows => some rows
+  | n :: t, rows =>
+    match firstNamed n rows with
+    | none => revcompNamedRef t rows
+    | some r =>
+      if r.2.any (fun c => (complementByte c).isNone) then none
+      else revcompNamedRef t (updateFirst n (fun s => (s.map fun c => (complementByte c).getD c).reverse) rows)
+
 /-- outcome of a step: the new state (`none` = the documented behaviour leaves the state unspecified
 after this error) and the status -/
 def stepOp (b : SBag) : Op → Option SBag × String
@@ -231,5 +244,49 @@ def stepOp (b : SBag) : Op → Option SBag × String
     if a == 1 && (d == NUCLEOTIDS || d == BOTH) then (some { b with alphabet := NUCLEOTIDS }, "ok")
     else if a == 0 && (d == AMINOACIDS || d == BOTH) then (some { b with alphabet := AMINOACIDS }, "ok")
     else (some b, "err")
+  | .revcompSeqs names =>
+    -- only defined on nucleotides (an error otherwise, nothing changed); the rows designated by the names are
+    -- reverse-complemented (`revcompNamedRef`), everything else stays; a residue without a complement in a designated
+    -- row is an error after which the content is unspecified
+    if b.alphabet != NUCLEOTIDS then (some b, "err") else
+    match revcompNamedRef names b.rows with
+    | none => (none, "err")
+    | some rows => (some { b with rows := rows }, "ok")
+  | .diffFirst =>
+    -- every sequence but the first shows a point wherever it carries the residue the first sequence carries at
+    -- that position; the first sequence, names and order stay
+    if !b.isAlign then (some b, "na") else
+    match b.rows with
+    | [] => (some b, "ok")
+    | r0 :: rest =>
+      (some { b with rows := r0 :: rest.map fun r =>
+        (r.1, r.2.zipIdx.map fun (c, i) => if r0.2[i]? == some c then POINT else c) }, "ok")
+  | .replaceMatch =>
+    -- the inverse display: in every sequence but the first a point is replaced by the residue the first sequence
+    -- carries at that position
+    if !b.isAlign then (some b, "na") else
+    match b.rows with
+    | [] => (some b, "ok")
+    | r0 :: rest =>
+      (some { b with rows := r0 :: rest.map fun r =>
+        (r.1, r.2.zipIdx.map fun (c, i) => if c == POINT then (r0.2[i]?).getD c else c) }, "ok")
+  | .mask refseq start len mr nogap noref =>
+    -- the row-level function of property C15 on the plain rows (the reference sequence is the first row of that name,
+    -- the length is the rows' length): `C15.mask_cells` - a residue changes exactly when it lies in the window
+    -- `[start, start+len)` and is not protected (a gap with `nogap`, the reference's residue with `noref`), and then
+    -- becomes the replacement character; `C15.mask_ok_iff` - an error (nothing changes) exactly for a start outside
+    -- `[0, L]`, an unknown replacement, a reference that is asked for and absent
+    if !b.isAlign then (some b, "na") else
+    match Gv.Model.mask b.rows b.length b.alphabet refseq start len mr nogap noref with
+    | none => (some b, "err")
+    | some rows => (some { b with rows := rows }, "ok")
+  | .maskOcc refseq maxOcc mr =>
+    -- likewise `MaskOccurences` (`MaskUnique`: `maxOcc = 1`): `C15.maskOcc_cells` - residue `i` of a row becomes the
+    -- column's replacement character exactly when it is selected (`Spec.occSelected`: counted, not a gap, at most
+    -- `maxOcc` occurrences among the counted residues of the column); `C15.maskOcc_ok_iff` for the errors
+    if !b.isAlign then (some b, "na") else
+    match Gv.Model.maskOccurences b.rows b.length b.alphabet refseq maxOcc mr with
+    | none => (some b, "err")
+    | some rows => (some { b with rows := rows }, "ok")
 
 end Gv.Spec
